@@ -249,7 +249,7 @@ static void helpers(Ctx &c, int reps) {
     delete_IntPolynomial(p); delete_IntPolynomial(m); delete_TGswSampleFFT(AF); delete_TGswSample(C); delete_TGswSample(B); delete_TGswSample(A);
 }
 
-static const char *ecls_name[] = {"all-zero", "all-2N-1", "single-nonzero", "random", "mixed-0-and-2N-1"};
+static const char *ecls_name[] = {"all-zero", "all-2N-1", "single-nonzero", "random", "mixed-0-and-2N-1", "all-N", "mixed-special-exponents(1,N-1,N,N+1,2N-2)"};
 
 static void blind_rotations(Ctx &c, int n, int reps, double alpha) {
     // bootstrapping-key style array: bk[i] encrypts s_i in {0,1}
@@ -266,11 +266,12 @@ static void blind_rotations(Ctx &c, int n, int reps, double alpha) {
     std::vector<int32_t> bara(n);
     std::vector<U> ph0, ph1, ph2, want; std::vector<int32_t> ph0_i(N);
     for (int rep = 0; rep < reps; rep++) {
-        int ec = rep < 5 ? rep : (int) rng.below(5), cc = (int) rng.below(3);   // classes drawn independently of the counter that selects the variants
-        bool coef_variant = n <= 4 || rep < 5 || rng.below(3) == 0;
+        int ec = rep < 7 ? rep : (int) rng.below(7), cc = (int) rng.below(3);   // classes drawn independently of the counter that selects the variants
+        bool coef_variant = n <= 4 || rep < 7 || rng.below(3) == 0;
         int64_t S = 0; int active = 0;
+        const int special_exp[5] = {1, N - 1, N, N + 1, 2 * N - 2};
         for (int i = 0; i < n; i++) {
-            int a = ec == 0 ? 0 : ec == 1 ? 2 * N - 1 : ec == 2 ? (i == rep % n ? 1 + (int) rng.below(2 * N - 1) : 0) : ec == 3 ? (int) rng.below(2 * N) : (rng.coin() ? 0 : 2 * N - 1);
+            int a = ec == 0 ? 0 : ec == 1 ? 2 * N - 1 : ec == 2 ? (i == rep % n ? 1 + (int) rng.below(2 * N - 1) : 0) : ec == 3 ? (int) rng.below(2 * N) : ec == 5 ? N : ec == 6 ? special_exp[rng.below(5)] : (rng.coin() ? 0 : 2 * N - 1);
             bara[i] = a; S += (int64_t) a * s[i]; if (a) active++;
         }
         fill_tlwe(c, acc0, cc);
